@@ -1,5 +1,6 @@
 import PrysmVerif.Generated.C05
 import PrysmVerif.Lemmas.C05Fourier
+import PrysmVerif.Lemmas.C05Instance
 import Mathlib.Tactic.NormNum
 /-!
 # C05 — fixed-sampling results depend on the physical field, not its array embedding
@@ -218,6 +219,16 @@ theorem fpm_allpass_identity (e : R → V) (he : ∀ a b, e (a + b) = e a * e b)
   field_simp
 
 end fourier
+
+/-- the all-pass identity for the actual kernel `e t = exp(-2πi t)` on `ℝ → ℂ`, `ofR` the inclusion `ℝ → ℂ` and the real
+square root: no abstract hypothesis is left, so the hypotheses of `fpm_allpass_identity` are not vacuous -/
+theorem fpm_allpass_identity_real (m n M : Nat) (hm : m ≤ M) (hn : n ≤ M) (hm0 : 0 < m) (hn0 : 0 < n)
+    (dx efl lam fdx shx shy : ℝ) (hdx : dx ≠ 0) (hf : efl ≠ 0) (hl : lam ≠ 0) (hd : fdx ≠ 0)
+    (hband : dx * fdx / (lam * efl) = 1 / (M : ℝ)) (f : Nat → Nat → ℂ) (j i : Nat) (hj : j < m) (hi : i < n) :
+    Model.C05.toFpmAndBack eReal (⇑Complex.ofRealHom) Real.sqrt m n M M dx efl lam fdx shx shy (fun _ _ => 1) f j i = f j i := by
+  have hM0 : 0 < M := by omega
+  exact fpm_allpass_identity eReal eReal_add eReal_zero Complex.ofRealHom Real.sqrt m n M hm hn hm0 hn0
+    (eReal_orth M hM0) (Real.mul_self_sqrt (by positivity)) dx efl lam fdx shx shy hdx hf hl hd hband f j i hj hi
 
 /-! ## non-vacuity (exact rational arithmetic): a band-complete 8-sample mask grid for a 6-sample pupil -/
 example : (1/2 : ℚ) * (25/2) / ((1/2) * 100) = 1 / 8 := by norm_num
